@@ -1,0 +1,31 @@
+//go:build verif
+
+package dhcp4_spoofer
+
+import "net/netip"
+
+// VerifLease is a value copy of a lease including the unexported subnet identity.
+type VerifLease struct {
+	Lease
+	SubnetLAN netip.Prefix
+	SubnetID  string
+}
+
+// VerifLeases returns a copy of the lease table taken under the handler lock.
+// Compiled only with -tags verif.
+func (h *Handler) VerifLeases() []VerifLease {
+	h.Lock()
+	defer h.Unlock()
+	out := make([]VerifLease, 0, len(h.table))
+	for _, l := range h.table {
+		v := VerifLease{Lease: *l}
+		v.ClientID = append([]byte{}, l.ClientID...)
+		v.XID = append([]byte{}, l.XID...)
+		if l.subnet != nil {
+			v.SubnetLAN = l.subnet.LAN
+			v.SubnetID = l.subnet.ID
+		}
+		out = append(out, v)
+	}
+	return out
+}
